@@ -1205,6 +1205,52 @@ def main():
     except Exception as e:  # fail closed
         out.append("(* mlar info: %s *)" % e)
         out.append("Definition INFO_untranslatable : unit := tt.")
+    # ---- work package extract: the on-demand writer pool of `mlar extract` (C16 / C12)
+    out.append("(* mlar/src/main.rs: FileWriter pool — capacity, open flags of the miss path, order put / get_mut / write,")
+    out.append("   the pre-pass of `extract` (create_file for every name, handle dropped) before linear_extract *)")
+    try:
+        mrs = read("mlar/src/main.rs")
+        nc = lambda s: re.sub(r"//[^\n]*", "", s)
+        mcap = re.search(r"\bconst\s+FILE_WRITER_POOL_SIZE\s*:\s*usize\s*=\s*([0-9_]+)\s*;", mrs)
+        if not mcap:
+            raise ParseError("FILE_WRITER_POOL_SIZE not found")
+        mw = re.search(r"impl\s+Write\s+for\s+FileWriter<'_>\s*\{\s*fn\s+write\(&mut self,\s*buf:\s*&\[u8\]\)\s*->\s*io::Result<usize>\s*\{(.*?)\n    \}\n", mrs, re.S)
+        if not mw:
+            raise ParseError("impl Write for FileWriter: write not found")
+        wb = nc(mw.group(1))
+        mo = re.search(r"if\s+!cache\.contains\(&self\.path\)\s*\{\s*let\s+file\s*=\s*fs::OpenOptions::new\(\)((?:\s*\.\s*\w+\(\s*\w+\s*\))*)\s*\.\s*open\(&self\.path\)\?\s*;\s*cache\.put\(self\.path\.clone\(\),\s*file\)\s*;", wb, re.S)
+        if not mo:
+            raise ParseError("FileWriter::write: miss path (contains / OpenOptions / put) has an unexpected shape")
+        flags = re.findall(r"\.\s*(\w+)\(\s*(\w+)\s*\)", mo.group(1))
+        if any(v not in ("true", "false") for _, v in flags):
+            raise ParseError("FileWriter::write: OpenOptions flag with a non-literal argument")
+        on = sorted(n for n, v in flags if v == "true")
+        i_put, i_get, i_wr = wb.find("cache.put("), wb.find("cache.get_mut(&self.path).unwrap()"), wb.find("file.write(buf)")
+        order_ok = 0 <= i_put < i_get < i_wr and wb.count("OpenOptions") == 1 and "File::create" not in wb and "set_len" not in wb and "seek" not in wb.lower()
+        exb = nc(find_fn_body(mrs, "extract")[0])
+        mlin = re.search(r"if\s+matches!\(file_name_matcher,\s*ExtractFileNameMatcher::Anything\)\s*\{(.*?)return\s+Ok\(linear_extract\(&mut mla,\s*&mut export\)\?\)\s*;\s*\}", exb, re.S)
+        if not mlin:
+            raise ParseError("extract: whole-archive arm not found")
+        lin = mlin.group(1)
+        mpre = re.search(r"for\s+fname\s+in\s+&iter\s*\{\s*if\s+let\s+Some\(\((\w+),\s*path\)\)\s*=\s*create_file\(&output_dir,\s*fname\)\?\s*\{\s*export\.insert\(\s*fname,\s*FileWriter\s*\{([^}]*)\}\s*,?\s*\)\s*;\s*\}\s*\}\s*$", lin.strip(), re.S)
+        cache_ok = re.search(r"LruCache::new\(\s*NonZeroUsize::new\(FILE_WRITER_POOL_SIZE\)\.unwrap\(\)\s*,?\s*\)", lin) is not None
+        if not cache_ok:
+            raise ParseError("extract: the cache is not LruCache::new(NonZeroUsize::new(FILE_WRITER_POOL_SIZE))")
+        i_list, i_sort = exb.find("mla.list_files()?"), exb.find("iter.sort()")
+        prepass = mpre is not None and 0 <= i_list < i_sort < exb.find("ExtractFileNameMatcher::Anything)")
+        fields = sorted(x.strip().split(":")[0].strip() for x in (mpre.group(2).split(",") if mpre else []) if x.strip())
+        mst = re.search(r"struct\s+FileWriter<'a>\s*\{(.*?)\n\}", mrs, re.S)
+        sfields = sorted(re.findall(r"^\s*(\w+)\s*:", nc(re.sub(r"///[^\n]*", "", mst.group(1))), re.M)) if mst else []
+        dropped = (mpre is not None and mpre.group(1).startswith("_") and fields == ["cache", "fname", "path", "verbose"]
+                   and sfields == ["cache", "fname", "path", "verbose"])
+        out.append("Definition FILE_WRITER_POOL_SIZE : N := %d." % int(mcap.group(1).replace("_", "")))
+        out.append("Definition POOL_reopen_flags : list (list N) := [%s]." % "; ".join("[%s]" % "; ".join(str(b) for b in n.encode()) for n in on))
+        out.append("Definition POOL_miss_then_put_then_get_mut : bool := %s." % ("true" if order_ok else "false"))
+        out.append("Definition EXTRACT_prepass_create_file_for_every_name_before_linear_extract : bool := %s." % ("true" if prepass else "false"))
+        out.append("Definition EXTRACT_prepass_handle_dropped : bool := %s." % ("true" if dropped else "false"))
+    except Exception as e:  # fail closed
+        out.append("(* extract pool: %s *)" % str(e).replace("*)", "* )"))
+        out.append("Definition POOL_untranslatable : unit := tt.")
     out.append("")
 
     # ---- C bindings: MLAStatus discriminants and the null checks of every entry point (C20)
